@@ -72,7 +72,9 @@ Quals == {"none", "declared", "diffname", "alias", "selfname", "unbound", "laste
 \* sib = "binds": an earlier file of the same package imports, under the qualifier's name, a package that has no I
 \* (imports are file-scoped: the annotated file's own imports decide)
 Base == [qual |-> "declared", ikind |-> "iface", cptr |-> TRUE, recv |-> "value", via |-> "direct",
-         pT |-> "int", pI |-> "int", rT |-> "string", rI |-> "string", vT |-> FALSE, vI |-> FALSE, two |-> FALSE, sib |-> "none", sealed |-> FALSE, second |-> "none"]
+         pT |-> "int", pI |-> "int", rT |-> "string", rI |-> "string", vT |-> FALSE, vI |-> FALSE, two |-> FALSE, sib |-> "none", sealed |-> FALSE, second |-> "none", shadow |-> FALSE]
+\* shadow = TRUE: the file also imports (under another name) a package whose import path *ends in* the interface package's path
+\* (m/x/m/d next to m/d) and which declares an interface I with a different method: Go resolves the qualifier to m/d only
 \* second: T carries one more @implements line, before (..1) or after (..2) the main one: unbound (`nope2.J`, IMPL01),
 \* viol (`d.V` with a method T does not have, IMPL03 missing Nope), ok (`d.E0`, an empty interface); annotations are judged one by one
 Seconds == {"unbound1", "unbound2", "viol1", "viol2", "ok1", "ok2"}
@@ -97,9 +99,10 @@ InitSc ==
           /\ (v = "foreignIface" => r = "value")
           /\ sc = [Base EXCEPT !.cptr = c, !.recv = r, !.via = v, !.sealed = TRUE]
   \/ /\ Family = "qual"      \* qualifier resolution and interface lookup
-     /\ \E q \in Quals, k \in {"iface", "nonIface", "absent"}, c \in BOOLEAN, r \in {"value", "none"}, a \in {"int", "string"}, sb \in {"none", "binds"} :
+     /\ \E q \in Quals, k \in {"iface", "nonIface", "absent"}, c \in BOOLEAN, r \in {"value", "none"}, a \in {"int", "string"}, sb \in {"none", "binds"}, sh \in BOOLEAN :
           /\ (sb = "binds" => q \in {"declared", "alias", "unbound"})
-          /\ sc = [Base EXCEPT !.qual = q, !.ikind = k, !.cptr = c, !.recv = r, !.pT = a, !.sib = sb]
+          /\ (sh => q \in {"declared", "alias"} /\ sb = "none")
+          /\ sc = [Base EXCEPT !.qual = q, !.ikind = k, !.cptr = c, !.recv = r, !.pT = a, !.sib = sb, !.shadow = sh]
 
   \/ /\ Family = "multi"     \* two annotations on one type
      /\ \E q \in {"declared", "unbound"}, c \in BOOLEAN, r \in {"value", "pointer", "none"}, x \in Seconds :
@@ -169,7 +172,9 @@ Compare ==
                  ELSE LET ok == inms /\ Same(sc.pT, sc.pI) /\ Same(sc.rT, sc.rI) /\ sc.vT = sc.vI
                           miss == (IF ok THEN {} ELSE {MName(sc)}) \cup (IF sc.two THEN {"Extra"} ELSE {})
                       IN IF miss = {} THEN <<"none", {}>> ELSE <<"IMPL03", miss>>
-     IN /\ res' = IF drop /\ main[1] = "IMPL03" THEN <<"none", {}>> ELSE main
+         \* SuffixMatch: the interfaces of the shadow package are filed under the queried path as well and replace the real ones
+         shadowed == IF "SuffixMatch" \in Deviations /\ sc.shadow /\ bound THEN <<"IMPL03", {"Other"}>> ELSE main
+     IN /\ res' = IF drop /\ main[1] = "IMPL03" THEN <<"none", {}>> ELSE shadowed
         /\ res2' = IF drop /\ L1Second(sc)[1] = "IMPL03" THEN <<"none", {}>> ELSE L1Second(sc)
   /\ ph' = "done"
   /\ UNCHANGED <<sc, bound, found, inms>>
